@@ -1,5 +1,5 @@
 /-
-C08, audit round 1: order independence of WHOLE SCANS, generalised from `C08_perm_scan`
+C08, audit round 1: order independence of WHOLE SCANS, generalised from `C08_perm_scan_partial`
 (one root, `paths = []`, packages only) to
 
  * several scan roots, each root's tree rearranged INDEPENDENTLY (its own family of permutations `ρ`),
